@@ -10,6 +10,7 @@ CFGS = {"quick": ["sse2"], "thorough": ["sse2", "scalar"]}
 BOUNDS = ("E2-R: each kernel's optimised LLVM IR is executed symbolically (loop-free, <= 64 paths) and every output entry is proved equal, as a real function of the stored "
           "entries, to the textbook definition (sum_k a_ik b_kj, Leibniz determinant, adj(M)/det(M), M*inverse(M) = I under det != 0); rounding is outside the claim. "
           "Lattice side condition: largest k such that all intermediates are integers < 2^24 (2^53) for integer entries |x| <= k, hence bit-exact integer results there. "
+          "The compound-assignment impls (*=, +=, -=, *= s, /= s) are separate kernels with the same references. "
           "E1 cross-check (SAT, bit-precise): 2x2 determinant and product on integer entries in [-8, 8].")
 ASSUMPTIONS = ["IEEE operations read as exact real operations (mode R); NaN/inf not modelled in E2", "z3 nlsat decides the polynomial / rational identities"]
 
@@ -46,6 +47,17 @@ def _mk(ks, M, n, rd, wr, vrd, vwr, elem):
         ks.append(K(f"{M.lower()}_add", 2 * nn, nn, f"{wr}(o, 0, {rd}(i, 0) + {rd}(i, {nn}));", eqm(f"{M}+{M}", lambda x: [R.add(a, b) for a, b in zip(A(x), B(x))]), elem=elem, site=f"{M}::add", tags=("poly",)))
         ks.append(K(f"{M.lower()}_sub", 2 * nn, nn, f"{wr}(o, 0, {rd}(i, 0) - {rd}(i, {nn}));", eqm(f"{M}-{M}", lambda x: [R.sub(a, b) for a, b in zip(A(x), B(x))]), elem=elem, site=f"{M}::sub", tags=("poly",)))
         ks.append(K(f"{M.lower()}_neg", nn, nn, f"{wr}(o, 0, -{rd}(i, 0));", eqm(f"-{M}", lambda x: [[-e for e in c] for c in A(x)]), elem=elem, site=f"{M}::neg", tags=("poly",)))
+        # compound-assignment forms of the same operators (a separate impl per type and back end)
+        ks.append(K(f"{M.lower()}_mul_assign", 2 * nn, nn, f"let mut a = {rd}(i, 0); a *= {rd}(i, {nn}); {wr}(o, 0, a);", eqm(f"{M} *= {M}", lambda x: R.matmul(A(x), B(x))), elem=elem,
+                    site=f"{M}::mul_assign", desc=f"a *= b leaves a*b (self on the left) in a", tags=("poly",)))
+        ks.append(K(f"{M.lower()}_add_assign", 2 * nn, nn, f"let mut a = {rd}(i, 0); a += {rd}(i, {nn}); {wr}(o, 0, a);", eqm(f"{M} += {M}", lambda x: [R.add(a, b) for a, b in zip(A(x), B(x))]), elem=elem,
+                    site=f"{M}::add_assign", tags=("poly",)))
+        ks.append(K(f"{M.lower()}_sub_assign", 2 * nn, nn, f"let mut a = {rd}(i, 0); a -= {rd}(i, {nn}); {wr}(o, 0, a);", eqm(f"{M} -= {M}", lambda x: [R.sub(a, b) for a, b in zip(A(x), B(x))]), elem=elem,
+                    site=f"{M}::sub_assign", tags=("poly",)))
+        ks.append(K(f"{M.lower()}_mul_s_assign", nn + 1, nn, f"let mut a = {rd}(i, 0); a *= {f1}(i, {nn}); {wr}(o, 0, a);",
+                    lambda x, o, h: R.eq_all(h, o, R.flat([R.scale(c, x[nn]) for c in A(x)]), f"{M} *= s"), elem=elem, site=f"{M}::mul_assign_scalar", tags=("poly",)))
+        ks.append(K(f"{M.lower()}_div_s_assign", nn + 1, nn, f"let mut a = {rd}(i, 0); a /= {f1}(i, {nn}); {wr}(o, 0, a);",
+                    lambda x, o, h: [(f"{M} /= s[{j}]", h.eq(o[j] * x[nn], e)) for j, e in enumerate(R.flat(A(x)))], hyps=lambda x, h: [x[nn] != 0], elem=elem, site=f"{M}::div_assign_scalar"))
         ks.append(K(f"{M.lower()}_mul_s", nn + 1, 2 * nn, f"let k = {f1}(i, {nn}); {wr}(o, 0, {rd}(i, 0) * k); {wr}(o, {nn}, k * {rd}(i, 0));",
                     lambda x, o, h: R.eq_all(h, o, R.flat([R.scale(c, x[nn]) for c in A(x)]) * 2, f"{M}*s, s*{M}"), elem=elem, site=f"{M}::mul_scalar", tags=("poly",)))
         ks.append(K(f"{M.lower()}_div_s", nn + 1, nn, f"let k = {f1}(i, {nn}); {wr}(o, 0, {rd}(i, 0) / k);",
